@@ -232,7 +232,8 @@ def run(ctx):
         n = rng.choice([1.4, 1.59, 1.7 + 0.02j, 2.0])
         r = x / K
         th = np.array([rng.uniform(0.01, 1.0) for _ in range(6)])
-        ph = np.array([rng.uniform(0, 2 * math.pi) for _ in range(6)])
+        # azimuths as a user may write them: a scan over (-pi, pi], or beyond a full turn
+        ph = np.array([rng.uniform(0, 2 * math.pi) for _ in range(4)] + [rng.uniform(-math.pi, 0), rng.uniform(2 * math.pi, 3 * math.pi)])
         d = detector_points(theta=th, phi=ph, r=3000.0 / K)
         sph = Sphere(n=n, r=r, center=(0, 0, 0))
         okw = dict(medium_index=NMED, illum_wavelen=WL)
